@@ -118,7 +118,7 @@ PROPS["C13"] = dict(
     quick=[st("quick", 90)],
     thorough=[st("thorough", 900)],
     floor=dict(quick=300, thorough=1000),
-    rule="sections: dtype (DataType Display -> FromStr over the grid, every container x unusual field names, random depth-3 types), text (60 types -> Utf8/LargeUtf8/Utf8View -> back under default and custom FormatOptions), grid (ALL 108 x 108 ordered type pairs: can_cast_types vs dispatch on empty and all-null arrays, boundary columns in canonical / random / validity-masked layouts, safe vs strict duality, exact reference values, inverse casts), exh (every value of Int8/UInt8/Int16/UInt16/Float16 against every flat target), gridr and rand (random columns, one container level deep); class = (section, source family -> target family, mode, layout, outcome)",
+    rule="sections: dtype (DataType Display -> FromStr over the grid, every container x unusual field names, random depth-3 types), text (60 types -> Utf8/LargeUtf8/Utf8View -> back under default and custom FormatOptions), grid (ALL 108 x 108 ordered type pairs: can_cast_types vs dispatch on empty and all-null arrays, boundary columns in canonical / random / validity-masked layouts, safe vs strict duality, exact reference values, inverse casts), exh (every value of Int8/UInt8/Int16/UInt16/Float16 against every flat target), sparse (hand-built dictionaries with more than twice as many entries as rows: split / invalid UTF-8, null entries, null keys), gridr and rand (random columns, one container level deep); class = (section, source family -> target family, mode, layout, outcome)",
     level="exploration",
     level_text="Runtime oracle over the complete finite type-pair grid of arrow-cast: metamorphic safe/strict duality, exact reference conversion (std integer/float semantics, num-bigint decimals, chrono calendars), inverse-cast identity and format/parse round trips; exhaustive for 8/16-bit sources.",
     level_note="Trusts the reference model in c13_model.rs. Named time zones, NaN payloads, out-of-domain Time/Date64 values and nullability errors of struct casts are not asserted.",
